@@ -103,7 +103,7 @@ def apply_op(lang, text, op):
     raise ValueError(k)
 
 
-BYTE_KINDS = ["latin1_identifier", "latin1_comment", "lone_continuation", "nul", "bom", "utf16"]
+BYTE_KINDS = ["latin1_identifier", "latin1_comment", "lone_continuation", "nul", "bom", "utf16", "every_high_byte", "c1_string", "all_bytes_tail"]
 
 
 def apply_bytes(lang, text, kind):
@@ -122,6 +122,14 @@ def apply_bytes(lang, text, kind):
         return b"\xef\xbb\xbf" + text.encode("utf-8")
     if kind == "utf16":
         return text.encode("utf-16")
+    if kind == "every_high_byte":  # each of 0x80..0xFF once, in a comment: no 8-bit codec with holes survives this
+        return cm.encode() + b" " + bytes(range(0x80, 0x100)) + b"\n" + text.encode("utf-8")
+    if kind == "c1_string":  # the C1 control range inside a string literal in the middle of the text
+        b = text.encode("utf-8")
+        cut = b.find(b"\n", len(b) // 2) + 1
+        return b[:cut] + b's = "' + bytes(range(0x80, 0xa0)) + b'"\n' + b[cut:]
+    if kind == "all_bytes_tail":  # every byte value but the line breaks, after the text
+        return text.encode("utf-8") + b"\n" + bytes(x for x in range(256) if x not in (10, 13)) + b"\n"
     raise ValueError(kind)
 
 
